@@ -222,7 +222,7 @@ func TestC15(t *testing.T) {
 	if s.replay(t) {
 		return
 	}
-	rapidCheck(t, "rows", tierN(850, 30000), func(rt *rapid.T) {
+	rapidCheck(t, "rows", tierN(2500, 30000), func(rt *rapid.T) {
 		typ := rapid.SampledFrom(gateTypes).Draw(rt, "type")
 		if typ == "Poseidon" && rapid.IntRange(0, 2).Draw(rt, "thin") != 0 {
 			typ = rapid.SampledFrom(gateTypes[4:]).Draw(rt, "type2") // the Poseidon gate is ~50x more expensive
@@ -266,7 +266,7 @@ func TestC15(t *testing.T) {
 		}
 		s.exec(rt, "row", a, "row/"+typ+"/"+kind)
 	})
-	rapidCheck(t, "selectors", tierN(140, 6000), func(rt *rapid.T) {
+	rapidCheck(t, "selectors", tierN(400, 6000), func(rt *rapid.T) {
 		n := rapid.IntRange(2, 8).Draw(rt, "ngates")
 		a := c15Sel{Mode: int(eng.ModeNative)}
 		for i := 0; i < n; i++ {
